@@ -30,7 +30,7 @@ CLAIMED = {
  "C03": C("ParseRDNSequence is proved to turn the comma-separated pieces into single-valued RDNs in reversed order with the type from the documented short-name table (table lemma on the executed initializer) or the dotted OID (OidFromString proved arc by arc) and the value text after the first '=' unchanged; Validate/Merge/validateAndMerge are proved to leave the subject untouched (frame); serial and unique ids are proved to pass through initCertificate, BuildCertBody and Sign.",
            "The comma splitting over runes (loop 1 of ParseRDNSequence) is abstracted and covered by a bounded stand-in (labelled bounded); PrintableString/UTF8String choice is encoding/asn1." + COMMON, "6 (C03)"),
  "C06": C("Every Builder of the eleven extension kinds is proved (commonExtensionHandler inlined, its reflection evaluated for the concrete type): neither raw nor content gives OverrideNeededBuilder, both is an error, raw gives a ConstantBuilder with the kind's OID, the configured critical flag and exactly the decoded raw bytes (readRawString proved for every length); BuildCertBody and Sign are proved to keep builder order; every constructor is proved to carry its critical argument and OID.",
-           "parseExtensions (reflection over AnyExtension with a non-constant bound) is assumed and covered by a bounded stand-in in thorough; base64 decoding is assumed." + COMMON, "6 (C06)"),
+           "parseExtensions is proved (its reflection loop over the fields of AnyExtension executed field by field for the statically known type): exactly one extension per list entry or an error, same length and order, the k-th result holds a copy of the structure the k-th entry points to; its bounded stand-in still runs in thorough. ConstantBuilder.Compile (returns an interior pointer, outside the subset) and FunctionBuilder.Compile (calls a function value) are not verified; base64 decoding is assumed." + COMMON, "6 (C06)"),
  "C07": C("Value contracts over a TLV algebra: key usage as minimal named bit list for all 256 flag bytes (bit vectors), the four GeneralName encodings, subjectAltName/authorityInfoAccess as SEQUENCE of the element encodings (loop invariants), key identifiers as SHA-1 of the subject/issuer public key bits, basic constraints, policies, extended key usage as DER of the struct the builders are proved to fill from the configuration.",
            "DER of primitives and reflection-driven struct encoding is encoding/asn1 (assumed); policy qualifiers are proved element by element (nested loop invariants)." + COMMON, "6 (C07)"),
  "C10": C("Write frame proved: exportPemFile writes at most the artifact file of its alias with exactly hash line, certificate, key and request blocks; PutBuildArtifact and BulkUpdate write only artifact files of listed aliases and return the first error; the sign closure is proved to reach BulkUpdate only after successful Open and planning and, when something would be replaced, only if the trimmed lower-cased answer is y; needsUpdate/HashSum lemmas as in C11/C13.",
@@ -40,9 +40,9 @@ CLAIMED = {
  "C17": C("marshalECPrivateKeyWithOID is proved to emit RFC 5915 ECPrivateKey version 1 with the scalar as exactly ceil(bitlen(n)/8) big-endian octets (leading zeros kept), the curve OID and the uncompressed point; MarshalPKCS8PrivateKey to wrap it (or the PKCS#1 key with NULL parameters) under the right algorithm identifier and the named-curve OID of a table proved on the executed initializers; parseECPrivateKey/ParsePKCS8PrivateKey/namedCurveFromOID are proved to read those fields back (scalar value, zero padding accepted, range check against the curve order, curve by OID for all ten curves) and to reject anything else with an error.",
            "The round trip is composed by the verifier itself: verifRoundTripEC/verifRoundTripRSA (verif-tagged, never called) are proved to return the same curve, scalar and point (EC) resp. the same PKCS#1 key (RSA) for every valid key, from the two contracts and the stated axiom that asn1.Unmarshal undoes asn1.Marshal on the two key containers (specs/rt.smt2); ReadPem's block scan is proved against specs/pem.smt2 with pem.Decode assumed; struct declarations are pinned by shape obligations; big.Int and elliptic-curve arithmetic are spec functions." + COMMON, "6 (C17)"),
  "C18": C("IsConsistent is proved to compare NumEntities with the size of the breadth-first closure of the root list under GetSubscribers (loop invariant against the recursive spec bfs), so dangling issuers, cycles and self-loops (never reached from a root) make it false; importCertConfigFile is proved to derive the alias (explicit or base name without suffix), to refuse a second configuration of the same alias, and to file the entity under roots or under its issuer's subscribers; the sign closure is proved to reach BulkUpdate only after Open succeeded; write frame as in C10.",
-           "Partial: importFiles' directory walk and suffix filter are not under contract (fs.WalkDir callbacks); that bfs-count equality characterises forests is the textbook lemma." + COMMON, "6 (C18)"),
+           "The walk callback (suffix filter, only parsed certificate configurations imported, unparseable files skipped), ParseConfig and the version-1 parser V1Configurator.ParseConfiguration (a certificate or profile pointer or an error; every error of the schema validator, yaml and the init functions returned) are under contract; fs.WalkDir itself, yaml and the JSON schema validator are assumed; that bfs-count equality characterises forests is the textbook lemma." + COMMON, "6 (C18)"),
  "C20": C("Safety sweep: every index, slice, nil dereference, type assertion, lossy conversion and explicit panic in all functions under contract is an obligation discharged for all inputs satisfying the stated preconditions; preconditions are obligations at in-repo call sites.",
-           "Parsers in dependencies (yaml, jsonschema, asn1, pem) are outside; functions marked unverified are listed in evidence; import of artifact files is not yet under contract in this revision." + COMMON, "6 (C20)"),
+           "The run also proves every clause without a property tag (index ranges, lengths, nil-ness in invariants, preconditions and postconditions) of every unit, since the safety proofs rest on them; clauses tagged for another property are assumed here and proved in that property's run. Parsers in dependencies (yaml, jsonschema, asn1, pem) are outside; functions marked unverified are listed in evidence." + COMMON, "6 (C20)"),
 }
 NOT_APPLICABLE = {
  "C12": "whole-history convergence needs an inductive invariant over directory states under a user-operation alphabet; no per-call contract states it (DESIGN.md section 6, C12)",
